@@ -285,7 +285,7 @@ for az in (("x", "y"), ("rho", "phi")):
                             except Exception as e:
                                 bad.append(f"{syn}: ({oname}).{rd} on Momentum{dim}D with raw fields {names} raises {type(e).__name__}: {str(e)[:60]}")
                                 continue
-                            if any(abs(a_ - b_) > 1e-12 * max(1.0, abs(b_)) for a_, b_ in zip(got, want)):
+                            if any((a_ != b_ and (abs(a_ - b_) > 1e-12 * max(1.0, abs(b_)) or abs(a_) == float("inf") or abs(b_) == float("inf"))) for a_, b_ in zip(got, want)):
                                 bad.append(f"{syn}: ({oname}).{rd} on a Momentum{dim}D array with raw fields {names} = {got}; with geometric fields {geo} it is {want}")
                     # three-step: two chained operations (one that changes values or drops a dimension, then a conversion / re-embedding with a
                     # keyword), then read: nothing stale may win over the fresh coordinate or the keyword value
@@ -332,7 +332,7 @@ for az in (("x", "y"), ("rho", "phi")):
                                     except Exception as e:
                                         bad.append(f"{syn}: ({o1} then {o2}).{rd} on Momentum{dim}D with raw fields {names} raises {type(e).__name__}")
                                         continue
-                                    if any(abs(a_ - b_) > 1e-12 * max(1.0, abs(b_)) for a_, b_ in zip(got, want)):
+                                    if any((a_ != b_ and (abs(a_ - b_) > 1e-12 * max(1.0, abs(b_)) or abs(a_) == float("inf") or abs(b_) == float("inf"))) for a_, b_ in zip(got, want)):
                                         bad.append(f"{syn}: ({o1} then {o2}).{rd} on a Momentum{dim}D array with raw fields {names} = {got}; with geometric fields {geo} it is {want}")
 # item ASSIGNMENT on Awkward vector arrays (arr[name] = values replaces a field of the same array object): after every reader has been
 # used once (anything cached is warm), a field is assigned; every reader must then agree with a FRESH array built from the new columns
@@ -374,7 +374,7 @@ if MODE in ("all", "nochain", "assign"):
                     except Exception as e:
                         bad.append(f"assign: {how} {rname}{names} after arr[{fld!r}] = ...: reading .{rd} raises {type(e).__name__}: {str(e)[:60]}")
                         continue
-                    if any((a_ != a_) != (b_ != b_) or (a_ == a_ and abs(a_ - b_) > 1e-12 * max(1.0, abs(b_))) for a_, b_ in zip(got, want)):
+                    if any((a_ != a_) != (b_ != b_) or (a_ == a_ and (a_ != b_ and (abs(a_ - b_) > 1e-12 * max(1.0, abs(b_)) or abs(a_) == float("inf") or abs(b_) == float("inf")))) for a_, b_ in zip(got, want)):
                         bad.append(f"assign: {how} {rname}{names}: after reading every property once and then arr[{fld!r}] = {newv}, .{rd} = {got}; a fresh array with the new column gives {want}")
 print("JSON" + json.dumps([bad, n]))
 """
